@@ -491,9 +491,14 @@ func (x *Explorer) ConfirmExact(target *E1State, opts ConfirmOpts) *Confirmation
 		for k := range visited {
 			var st uint64
 			fmt.Sscanf(k, "%d#", &st)
-			if xs.dist[st] == minD && n < 5 {
+			if xs.dist[st] == minD && n < 2 {
 				fmt.Printf("E1X-DEBUG   node %s\n", k)
 				n++
+				for _, tk := range xs.x.W.allObjectIDsAt(xs.x.contentSnap[st]) {
+					r := xs.act(st, Env{NextReq: 9}, Trans{Kind: "step", Ctrl: tk.Ctrl, ID: tk.ID})
+					_, in := xs.dist[r.succ]
+					fmt.Printf("E1X-DEBUG      %s %s effects=%d succInCone=%v tokens=%v\n", tk.Ctrl, tk.ID, r.effects, in, r.tokens)
+				}
 			}
 		}
 	}
@@ -725,7 +730,11 @@ func newCandidates(needIdle bool) *candidates {
 // consider notes a candidate; candidates are confirmed after the exploration (the cone needs the finished graph).
 func (c *candidates) consider(x *Explorer, rep *Report, sc *Scenario, s *E1State, class, what string, check func(w *World) (bool, string)) {
 	c.total++
-	if c.attempts[class] >= 4 {
+	max := 8
+	if !c.needIdle {
+		max = 80 // safety candidates: many contents show the same violation; some of them are exact-reachable
+	}
+	if c.attempts[class] >= max {
 		return
 	}
 	c.attempts[class]++
